@@ -46,7 +46,7 @@ Definition live c (l : list ev) := has (is_DS_of c) l && negb (has (is_DE c fals
 
 Definition wraps_name (deps : list dcfg) w n :=
   match nth_error deps w with
-  | Some d => wrapper d && match wraps d with Some i => i =? n | None => false end
+  | Some d => wrapper d && match wraps d with Some i => i =? n | None => n =? length deps end   (* None: __LOCAL__ *)
   | None => false
   end.
 
@@ -356,3 +356,17 @@ Proof.
   assert (Hin : In n (seq 1 6)) by (apply in_seq; lia).
   destruct (explore_sound false (chain n) (chP n (allreq n)) sched 200 _ (H n Hin) Hv) as [HP _]. exact HP.
 Qed.
+
+(* ---------------------------------------------------------------- wrappers without `wraps`: the implicit __LOCAL__
+   Two wrapper deployments without a `wraps` directive share the implicit local deployment (index length deps):
+   two requests deploy them concurrently (their connector.deploy suspend), then one of them tears everything
+   down with undeploy_all(); every interleaving: __LOCAL__ is deployed once, each deploy returns after its
+   connector is deployed, and the local connector is not undeployed while a wrapper connector is live. *)
+Definition loc_deps := [mkD true None false [] 1 0; mkD true None false [] 1 1].
+Definition loc_reqs := [[ODeploy 0]; [ODeploy 1; OAll]].
+Definition loc_P (s : st) := wo_ok loc_deps (log s) && once_ok (log s) && ra_ok loc_reqs (log s).
+Lemma loc_explored : explore false loc_deps loc_P 60 (init loc_reqs) = true.
+Proof. vm_compute. reflexivity. Qed.
+Lemma loc_all_schedules : forall sched, valid false loc_deps (init loc_reqs) sched = true ->
+  loc_P (run false loc_deps (init loc_reqs) sched) = true.
+Proof. intros sched Hv. exact (proj1 (explore_sound false loc_deps loc_P sched 60 _ loc_explored Hv)). Qed.
